@@ -27,6 +27,8 @@ def _run(args):
         r = D.cancel_race_run(rng, rid, variant=nsteps, limit=limit)
     elif rid.startswith("coal"):
         r = D.coalesce_run(rng, rid, variant=nsteps, limit=limit)
+    elif rid.startswith("hung"):
+        r = D.hung_run(rng, rid)
     else:
         r = D.random_run(rng, rid, nsteps=nsteps, limit=limit)
     try:
@@ -58,6 +60,8 @@ def run(ctx):
     jobs = [(ctx.seed * 1000003 + i, f"req{i}", [20, 30, 45][i % 3]) for i in range(n)]
     # directed: the tail of a split response and the next EVENT(s) delivered by one read (6 variants, secure session)
     jobs += [(ctx.seed * 999961 + i, f"coal{i}", i % 6) for i in range(ctx.pick(48, 480))]
+    # directed: the accessory hangs with a large request unflushed, then sends EOF / is closed by the owner / dies late
+    jobs += [(ctx.seed * 999931 + i, f"hung{i}", 0) for i in range(ctx.pick(36, 360))]
     with mp.get_context("fork").Pool(min(16, os.cpu_count() or 4)) as pool:
         recs = pool.map(_run, jobs, chunksize=16)
     for r in recs:
@@ -104,7 +108,7 @@ def _replay(ctx):
         return
     rec = obj.get("record") or {}
     rid = str(rec.get("id", ""))
-    m = re.match(r"(req|lim|race|coalp|coal)(\d+)$", rid)
+    m = re.match(r"(req|lim|race|coalp|coal|hung)(\d+)$", rid)
     fresh = None
     cfg = "IpReq_Trace.cfg"
     if m:
@@ -113,6 +117,8 @@ def _replay(ctx):
             fresh = _run((seed * 1000003 + i, rid, [20, 30, 45][i % 3]))
         elif m.group(1) == "coal":
             fresh = _run((seed * 999961 + i, rid, i % 6))
+        elif m.group(1) == "hung":
+            fresh = _run((seed * 999931 + i, rid, 0))
         elif m.group(1) == "coalp":
             fresh, cfg = _run((seed * 999953 + i, rid, i % 6, 2)), "IpReq_Trace_L2.cfg"
         elif m.group(1) == "lim":
